@@ -53,6 +53,7 @@ class Vars(list):
     smemo = None
     sused = None
     reuse_condition_objects = False
+    reuse_within_query = False
 
 
 def build_term(t, V):
@@ -122,7 +123,7 @@ def build_cond(c, V):
         # comparison objects built once and used in two queries (c = x.a == 1; q1 = ...or_(c, d)...; q2 = ...for_all(u, c)...)
         # (one object is never used twice within ONE query: V.cused is cleared between the two queries)
         key = json.dumps(c, sort_keys=True)
-        if key in V.cused:
+        if key in V.cused and not getattr(V, "reuse_within_query", False):
             return _build_leaf(c, V)
         V.cused.add(key)
         if key not in cmemo:
@@ -350,6 +351,15 @@ def build_query(case, objs, containers=None, negate: int = 0, quant: Optional[st
         pre = build_over(V, dict(case, cond=case["prelude"], split_top=False, quant="an"), conts=conts)
         for _ in pre.q.evaluate():
             pass
+    if case.get("one_comparison_object_twice") and not negate and not negate_desc:
+        # a = x.a > 1; or_(a, and_(a, b)): equal comparison leaves of the (negation-free) condition are ONE object, also
+        # within this one query
+        if not isinstance(V, Vars):
+            V = Vars(V)
+        if V.cmemo is None:
+            V.cmemo = {}
+        V.cused = set()
+        V.reuse_within_query = True
     main = build_over(V, case, negate, quant, negate_desc, neg_form, conts)
     if case.get("later_uses"):
         main.later = later_uses(V)       # kept alive with the query
